@@ -26,6 +26,7 @@ EXPLANATION = (
     "and [D - D % S, D), the recursive call and the final fold declare time variables of sizes D - D % S and 1 + D % S, the S segments "
     "[i * L, (i + 1) * L) with L = D // S tile [0, S * L), and the two stages declare sizes L and S. R10.3: the result of a scan is the "
     "transition evaluated at time 0 of the last round (trans(time=0)), and the naive variant folds the time steps in increasing order."
+    ' R10.6 (= C02 R02.11): the log-space einsum kernels at -inf. R10.7: the prev->drop and curr->drop renamings zip the keys and the values of ONE mapping in its own order. R10.8 (= C08 R08.12): the pairwise recursion of cnf.py sums a variable inside a pair only if exactly two operands mention it. R10.1 also requires the odd-tail guard to be an integer condition on the duration only.'
 )
 ASSUMPTIONS = ["Slice(name, start, stop, step, dtype) selects range(start, stop, step); Cat concatenates its parts in order",
                "sarkka_bilmes_product (lags), MarkovProduct and the value of each contraction are not decided"]
